@@ -315,6 +315,7 @@ FIXED_OTHER = [
     "lambda list: list | int", "lambda: a | b", "a < b | c < d", "a | b and c", "a[1:2 | 3]", "{a: b | c, **d}", "[*a, b | c]",
     "{a | b, c}", "x.list", "list.append", "a | b | c + d | e", "(a + b | c) | d", "a ^ b | c & d", "a @ b | c", "1 | 2",
     "Literal[1 | 2]", "a | (lambda: b | c)", "(a | b).c | d", "(a | b)[c | d]", "f(a | b)(c | d)", "a.b(c)[d] | e",
+    "A - B | C", "A | B & C", "(A + B) | C", "A | B * C | D", "Dict[A, B - C | D]", "dict[a, b - c | d]", "list[a @ b | None]", "-a | ~b",
     "[a | b][0]", "(a | b, c | d)", "1.5 | x", "b'|' | a", "a[*b]", "x[::2] | y", "a >> b | c << d", "a // b | c % d",
 ]
 
@@ -334,6 +335,36 @@ def gen_strings(ctx):
         d = r.choice([1, 2, 2, 3, 3, depth])
         x = xg.e(d)
         try:                       # unparenthesised `not` / lambda operands: not every composition is an expression
+            parse_body(x)
+        except SyntaxError:
+            continue
+        out.append((x, "other"))
+    # expressions made of names, subscripts and operators only, every one with a `|` somewhere: the structure oracle reads them too
+    oatoms = ["a", "b", "c", "A", "list", "dict", "x.y", "None", "'s'", "typing.List", "set[a]", "..."]
+
+    def opx(d):
+        if d <= 0:
+            return r.choice(oatoms)
+        k = r.randrange(10)
+        if k < 6:
+            l, rr = opx(d - 1), opx(d - 1)
+            if r.random() < 0.35:
+                l = f"({l})"
+            if r.random() < 0.35:
+                rr = f"({rr})"
+            return f"{l} {r.choice(BINOPS)} {rr}"
+        if k == 6:
+            return f"{r.choice(['-', '~', '+'])}{r.choice(oatoms[:7])}"
+        if k == 7:
+            return f"{r.choice(['list', 'dict', 'Dict', 'x', 'typing.Tuple'])}[{opx(d - 1)}, {opx(d - 1)}]"
+        if k == 8:
+            return f"{r.choice(['list', 'Set', 'x.y', 'tuple'])}[{opx(d - 1)}]"
+        return f"({opx(d - 1)}, {opx(d - 1)})"
+    for _ in range(ctx.n(2500, 20000)):
+        x = opx(r.choice([1, 2, 2, 3]))
+        if " | " not in x:
+            continue
+        try:
             parse_body(x)
         except SyntaxError:
             continue
@@ -402,7 +433,8 @@ class Sym:
         if a.startswith("__"):
             raise AttributeError(a)
         if self.st[0] == "atom":
-            return Sym(("atom", _canon_path(self.st[2] + (a,)), self.st[2] + (a,)))
+            raw = _canon_path(self.st[2]) + (a,)          # dict.append and typing.Dict.append: the same attribute of the same thing
+            return Sym(("atom", _canon_path(raw), raw))
         return Sym(("attr", sym_struct(self), a))
 
     def __getitem__(self, item):
@@ -416,6 +448,50 @@ class Sym:
 
     def __ror__(self, other):
         return Sym(("union", _members(sym_struct(other)) + _members(sym_struct(self))))
+
+    def __neg__(self):
+        return Sym(("unop", "-", sym_struct(self)))
+
+    def __pos__(self):
+        return Sym(("unop", "+", sym_struct(self)))
+
+    def __invert__(self):
+        return Sym(("unop", "~", sym_struct(self)))
+
+
+def _sym_binop(name, op):
+    def fwd(self, other):
+        return Sym(("binop", op, sym_struct(self), sym_struct(other)))
+
+    def rev(self, other):
+        return Sym(("binop", op, sym_struct(other), sym_struct(self)))
+    setattr(Sym, f"__{name}__", fwd)
+    setattr(Sym, f"__r{name}__", rev)
+
+
+# every other binary operator keeps its operands and its sign (classes may give them a meaning through their metaclass): an
+# expression that mixes them with `|` still denotes ONE structure, and the rewriting may not change it
+for _n, _o in (("add", "+"), ("sub", "-"), ("mul", "*"), ("truediv", "/"), ("floordiv", "//"), ("mod", "%"), ("pow", "**"),
+               ("lshift", "<<"), ("rshift", ">>"), ("xor", "^"), ("and", "&"), ("matmul", "@")):
+    _sym_binop(_n, _o)
+
+
+def operator_expression(tree):
+    """An expression built from names, attributes, subscripts, tuples, lists, str / None / ... constants and operators only (no
+    numbers or bytes, whose own `|` is arithmetic; no calls, comparisons, lambdas, slices, stars)."""
+    ok_ops = (ast.USub, ast.UAdd, ast.Invert)
+    for n in ast.walk(tree):
+        if isinstance(n, (ast.Name, ast.Attribute, ast.BinOp, ast.Subscript, ast.Tuple, ast.List, ast.Load, ast.operator, ast.Expression,
+                          ast.Module, ast.Expr)):
+            continue
+        if isinstance(n, ast.UnaryOp) and isinstance(n.op, ok_ops):
+            continue
+        if isinstance(n, ok_ops):
+            continue
+        if isinstance(n, ast.Constant) and (n.value is None or n.value is Ellipsis or isinstance(n.value, str)):
+            continue
+        return False
+    return True
 
 
 ALIAS_PATHS = {tuple(v.split(".")): (k,) for k, v in TYPING_ALIAS}
@@ -533,6 +609,22 @@ def real_case(future, ns, s, stream, keys):
                 rec["sym"] = "ok"
                 if a != b:
                     fails.append({"what": "the output denotes another structure (symbolic evaluation, order of members kept)",
+                                  "out": t, "struct_in": repr(a)[:600], "struct_out": repr(b)[:600]})
+    elif operator_expression(tree_in) and has_pipe(tree_in):
+        # (1'') an expression that mixes `|` with other operators (A - B | C): the same structure, symbolically
+        try:
+            a = sym_eval(s)
+        except Exception:  # noqa: BLE001        'A' | 'B', a constant subscripted, ...
+            rec["sym"] = "skipped:input"
+        else:
+            try:
+                b = sym_eval(t)
+            except Exception as e:  # noqa: BLE001
+                fails.append({"what": f"symbolic evaluation of the output raises {type(e).__name__}: {e}", "out": t})
+            else:
+                rec["sym"] = "ok-operators"
+                if a != b:
+                    fails.append({"what": "the output denotes another structure (symbolic evaluation of an expression mixing `|` with other operators)",
                                   "out": t, "struct_in": repr(a)[:600], "struct_out": repr(b)[:600]})
     return rec, fails, tree_in, tree_out
 
